@@ -99,11 +99,11 @@ func c11Setup(e *vfEnv, r *vfkit.R, emailOn bool) *c11World {
 var errC11Injected = errors.New("vf injected credential read failure")
 
 type c11State struct {
-	ver  bool
-	uid  types.Uid
-	lvl  auth.Level
-	who  string
-	att  bool // attached to grp
+	ver bool
+	uid types.Uid
+	lvl auth.Level
+	who string
+	att bool // attached to grp
 }
 
 // one scripted connection
